@@ -2,20 +2,32 @@
    This file does not look at the code.  A cell is [Some b] (a known byte) or [None]
    (unspecified: the bytes a growing resize newly exposes).
 
-   Variables are numbered in creation order and live until the end of the history.  A history
-   the reference object does not accept (a variable that does not exist yet) has no meaning and
-   [spec_step] answers [None]; every other history, including all aliasing ones
-   (b = b, b.append(b), b.prepend(b), b.swap(b), b == b), is accepted. *)
-From Coq Require Import ZArith List Bool Arith Lia.
+   Variables are numbered in creation order and live until the end of the history.  Every size
+   argument is a number of the machine ([N]; the drivers pass every usize up to 2^64-1).
+
+   Three answers.  [SReject]: the history has no meaning - a variable that does not exist yet, a
+   byte range handed in that is not a possible object (longer than max_bytes), or a pointer
+   argument "inside v" that does not point at bytes v exposes.  [SUnsat]: the operation needs an
+   object that cannot exist - more than max_bytes = PTRDIFF_MAX bytes for the data and its
+   terminator; no allocator satisfies such a request, and the property (which assumes that
+   storage can be had) says nothing beyond "the request fails as a request".  [SOk]: every other
+   history, including all aliasing ones (b = b, b.append(b), b.prepend(b), b.swap(b), b == b,
+   b.append(b + off, n), b.assign(b + off, n), b.prepend(b + off, n)). *)
+From Coq Require Import ZArith NArith List Bool Arith Lia.
 From Common Require Import ListAux.
 Import ListNotations.
 
 Definition cell := option Z.
 Definition queue := list cell.
 
+(* PTRDIFF_MAX: no object is larger; n data bytes fit when n bytes and one terminator do *)
+Definition max_bytes : N := 9223372036854775807.
+Definition fitsN (n : N) : bool := (n <? max_bytes)%N.
+Definition fits (n : nat) : bool := fitsN (N.of_nat n).
+
 Inductive op :=
 | ONew                                  (* Buffer b;                      *)
-| ONewCap (n : nat)                     (* Buffer b(n);                   *)
+| ONewCap (n : N)                       (* Buffer b(n);                   *)
 | ONewData (d : list Z)                 (* Buffer b(data, size);          *)
 | ONewCopy (w : nat)                    (* Buffer b(w);                   *)
 | OAttach (v : nat) (d : list Z)        (* v.attach(fresh foreign memory holding d, |d|) *)
@@ -25,16 +37,26 @@ Inductive op :=
 | OPrependB (v w : nat)                 (* v.prepend(w);                  *)
 | OAppend (v : nat) (d : list Z)
 | OAppendB (v w : nat)                  (* v.append(w);                   *)
-| OResize (v : nat) (n : nat)
-| OReserve (v : nat) (n : nat)
-| ORemoveFront (v : nat) (n : nat)
-| ORemoveBack (v : nat) (n : nat)
+| OResize (v : nat) (n : N)
+| OReserve (v : nat) (n : N)
+| ORemoveFront (v : nat) (n : N)
+| ORemoveBack (v : nat) (n : N)
 | OClear (v : nat)
 | OFree (v : nat)
 | OSwap (v w : nat)
-| OEq (v w : nat).                      (* result of v == w               *)
+| OEq (v w : nat)                       (* result of v == w               *)
+| OAppendAt (v off n : nat)             (* v.append((const byte* )v + off, n);  the n bytes lie inside v *)
+| OAssignAt (v off n : nat)             (* v.assign((const byte* )v + off, n);                            *)
+| OPrependAt (v off n : nat).           (* v.prepend((const byte* )v + off, n);                           *)
 
 Definition known (d : list Z) : queue := map (@Some Z) d.
+
+(* a byte range handed in is an object that exists *)
+Definition data_ok (o : op) : bool :=
+  match o with
+  | ONewData d | OAttach _ d | OAssign _ d | OPrepend _ d | OAppend _ d => fits (length d)
+  | _ => true
+  end.
 
 (* v == w: decided by the first position at which the two queues are known to differ; an
    unspecified byte met before that leaves the answer unspecified. *)
@@ -52,57 +74,87 @@ Definition q_eq (x y : queue) : option bool :=
 Definition q_resize (q : queue) (n : nat) : queue :=
   if n <=? length q then firstn n q else q ++ repeat None (n - length q).
 
-Definition on1 (qs : list queue) (v : nat) (f : queue -> queue) : option (list queue * option bool) :=
+(* the bytes at [off, off+n) of a queue *)
+Definition q_part (q : queue) (off n : nat) : queue := firstn n (skipn off q).
+
+Inductive sres (A : Type) := SOk (a : A) | SReject | SUnsat.
+Arguments SOk {A} a.
+Arguments SReject {A}.
+Arguments SUnsat {A}.
+
+Definition sstep := sres (list queue * option bool).
+
+(* [need q]: the number of data bytes the operation asks one object to hold (decided before the
+   new queue is built); [f q]: the new queue *)
+Definition on1 (qs : list queue) (v : nat) (need : queue -> N) (f : queue -> queue) : sstep :=
   match nth_error qs v with
-  | Some q => Some (upd v (f q) qs, None)
-  | None => None
+  | Some q => if fitsN (need q) then SOk (upd v (f q) qs, None) else SUnsat
+  | None => SReject
   end.
 
-Definition on2 (qs : list queue) (v w : nat) (f : queue -> queue -> queue) : option (list queue * option bool) :=
+Definition on2 (qs : list queue) (v w : nat) (need : queue -> queue -> N) (f : queue -> queue -> queue) : sstep :=
   match nth_error qs v, nth_error qs w with
-  | Some q, Some p => Some (upd v (f q p) qs, None)
-  | _, _ => None
+  | Some q, Some p => if fitsN (need q p) then SOk (upd v (f q p) qs, None) else SUnsat
+  | _, _ => SReject
   end.
 
-Definition spec_step (qs : list queue) (o : op) : option (list queue * option bool) :=
+(* the pointer argument v + off with n bytes behind it lies inside the bytes v exposes *)
+Definition on1at (qs : list queue) (v off n : nat) (need : queue -> N) (f : queue -> queue) : sstep :=
+  match nth_error qs v with
+  | Some q => if off + n <=? length q then on1 qs v need f else SReject
+  | None => SReject
+  end.
+
+Definition len (q : queue) : N := N.of_nat (length q).
+
+Definition spec_step (qs : list queue) (o : op) : sstep :=
+  if negb (data_ok o) then SReject else
   match o with
-  | ONew => Some (qs ++ [[]], None)
-  | ONewCap _ => Some (qs ++ [[]], None)
-  | ONewData d => Some (qs ++ [known d], None)
-  | ONewCopy w => match nth_error qs w with Some p => Some (qs ++ [p], None) | None => None end
-  | OAttach v d => on1 qs v (fun _ => known d)
-  | OAsg v w => on2 qs v w (fun _ p => p)
-  | OAssign v d => on1 qs v (fun _ => known d)
-  | OPrepend v d => on1 qs v (fun q => known d ++ q)
-  | OPrependB v w => on2 qs v w (fun q p => p ++ q)
-  | OAppend v d => on1 qs v (fun q => q ++ known d)
-  | OAppendB v w => on2 qs v w (fun q p => q ++ p)
-  | OResize v n => on1 qs v (fun q => q_resize q n)
-  | OReserve v _ => on1 qs v (fun q => q)
-  | ORemoveFront v n => on1 qs v (fun q => skipn n q)
-  | ORemoveBack v n => on1 qs v (fun q => firstn (length q - n) q)
-  | OClear v => on1 qs v (fun _ => [])
-  | OFree v => on1 qs v (fun _ => [])
+  | ONew => SOk (qs ++ [[]], None)
+  | ONewCap n => if fitsN n then SOk (qs ++ [[]], None) else SUnsat
+  | ONewData d => SOk (qs ++ [known d], None)
+  | ONewCopy w => match nth_error qs w with
+                  | Some p => if fitsN (len p) then SOk (qs ++ [p], None) else SUnsat
+                  | None => SReject
+                  end
+  | OAttach v d => on1 qs v (fun _ => 0%N) (fun _ => known d)
+  | OAsg v w => on2 qs v w (fun _ p => len p) (fun _ p => p)
+  | OAssign v d => on1 qs v (fun _ => N.of_nat (length d)) (fun _ => known d)
+  | OPrepend v d => on1 qs v (fun q => N.of_nat (length d) + len q)%N (fun q => known d ++ q)
+  | OPrependB v w => on2 qs v w (fun q p => len p + len q)%N (fun q p => p ++ q)
+  | OAppend v d => on1 qs v (fun q => len q + N.of_nat (length d))%N (fun q => q ++ known d)
+  | OAppendB v w => on2 qs v w (fun q p => len q + len p)%N (fun q p => q ++ p)
+  | OResize v n => on1 qs v (fun _ => n) (fun q => q_resize q (N.to_nat n))
+  | OReserve v n => on1 qs v (fun _ => n) (fun q => q)
+  | ORemoveFront v n => on1 qs v (fun _ => 0%N) (fun q => if (len q <=? n)%N then [] else skipn (N.to_nat n) q)
+  | ORemoveBack v n => on1 qs v (fun _ => 0%N) (fun q => if (len q <=? n)%N then [] else firstn (length q - N.to_nat n) q)
+  | OClear v => on1 qs v (fun _ => 0%N) (fun _ => [])
+  | OFree v => on1 qs v (fun _ => 0%N) (fun _ => [])
   | OSwap v w => match nth_error qs v, nth_error qs w with
-                 | Some q, Some p => Some (upd w q (upd v p qs), None)
-                 | _, _ => None
+                 | Some q, Some p => SOk (upd w q (upd v p qs), None)
+                 | _, _ => SReject
                  end
   | OEq v w => match nth_error qs v, nth_error qs w with
-               | Some q, Some p => Some (qs, q_eq q p)
-               | _, _ => None
+               | Some q, Some p => SOk (qs, q_eq q p)
+               | _, _ => SReject
                end
+  | OAppendAt v off n => on1at qs v off n (fun q => len q + N.of_nat n)%N (fun q => q ++ q_part q off n)
+  | OAssignAt v off n => on1at qs v off n (fun _ => N.of_nat n) (fun q => q_part q off n)
+  | OPrependAt v off n => on1at qs v off n (fun q => N.of_nat n + len q)%N (fun q => q_part q off n ++ q)
   end.
 
-Fixpoint spec_run (qs : list queue) (ops : list op) : option (list queue * list (option bool)) :=
+Fixpoint spec_run (qs : list queue) (ops : list op) : sres (list queue * list (option bool)) :=
   match ops with
-  | [] => Some (qs, [])
+  | [] => SOk (qs, [])
   | o :: rest =>
       match spec_step qs o with
-      | None => None
-      | Some (qs', r) =>
+      | SReject => SReject
+      | SUnsat => SUnsat
+      | SOk (qs', r) =>
           match spec_run qs' rest with
-          | None => None
-          | Some (qs'', rs) => Some (qs'', r :: rs)
+          | SReject => SReject
+          | SUnsat => SUnsat
+          | SOk (qs'', rs) => SOk (qs'', r :: rs)
           end
       end
   end.
